@@ -1057,4 +1057,121 @@ theorem createNode_notext (S : Schema) (ty : TypeId) (attrs : Attrs) (marks : Ma
       subst h
       split <;> simp [textUnits, Node.isText]
 
+/-! ### 6. plain target types never need the Fitter -/
+
+theorem plainType_state (S : Schema) (ty : TypeId) (h : S.plainType ty = true) (q : Nat)
+    (hq : q < (S.dfa ty).size) :
+    (S.dfa ty).validEnd q = true ∧ ∀ e ∈ (S.dfa ty).edgesOf q, e.2 < (S.dfa ty).size := by
+  simp only [Schema.plainType, Bool.and_eq_true, decide_eq_true_eq, List.all_eq_true] at h
+  have := h.2 (S.dfa ty)[q] (by simp)
+  refine ⟨?_, ?_⟩
+  · simp [Dfa.validEnd, Array.getElem?_eq_getElem hq, this.1]
+  · intro e he
+    simp only [Dfa.edgesOf, Array.getElem?_eq_getElem hq] at he
+    exact this.2 e he
+
+theorem plainType_matchType (S : Schema) (ty : TypeId) (h : S.plainType ty = true) (q : Nat)
+    (hq : q < (S.dfa ty).size) (t : TypeId) (q' : Nat) (hm : (S.dfa ty).matchType q t = some q') :
+    q' < (S.dfa ty).size := by
+  simp only [Dfa.matchType, Option.map_eq_some_iff] at hm
+  obtain ⟨e, he, rfl⟩ := hm
+  exact (plainType_state S ty h q hq).2 e (List.mem_of_find?_eq_some he)
+
+theorem plainType_keptState (S : Schema) (ty : TypeId) (h : S.plainType ty = true) : ∀ (kids : List Node) (q : Nat),
+    q < (S.dfa ty).size → keptState S ty kids q < (S.dfa ty).size
+  | [], q, hq => hq
+  | c :: cs, q, hq => by
+    simp only [keptState]
+    split
+    · exact plainType_keptState S ty h cs q hq
+    · rename_i q' hm
+      exact plainType_keptState S ty h cs q' (plainType_matchType S ty h q hq _ q' hm)
+
+theorem plainType_validEnd (S : Schema) (ty : TypeId) (h : S.plainType ty = true) (kids : List Node) :
+    (S.dfa ty).validEnd (keptState S ty kids 0) = true := by
+  have h0 : 0 < (S.dfa ty).size := by
+    simp only [Schema.plainType, Bool.and_eq_true, decide_eq_true_eq] at h
+    exact h.1
+  exact (plainType_state S ty h _ (plainType_keptState S ty h kids 0 h0)).1
+
+/-- a `clear_incompatible` whose walk ends at a valid end does not touch the log -/
+theorem clearIncompatibleF_fits_of_validEnd (S : Schema) (st st' : PSt) (pos : Nat) (pty : TypeId) (q0 : Nat)
+    (hv : ∀ node, st.tr.doc.nodeAt pos = .ok (some node) →
+      (S.dfa pty).validEnd (keptState S pty node.kids q0) = true)
+    (h : st.clearIncompatibleF S pos pty q0 = .ok st') : st'.fits = st.fits := by
+  unfold PSt.clearIncompatibleF at h
+  split at h
+  · simp at h
+  · simp at h
+  · rename_i node hnode
+    split at h
+    · simp at h
+    · rename_i q cur repl st1 hloop
+      have hf1 := clearLoop_fits S pty _ _ _ _ _ _ _ _ _ hloop
+      obtain ⟨rfl, _, _, _⟩ := clearLoop_plan S pty _ _ _ _ _ _ _ _ _ hloop
+      simp only [hv node hnode, if_true] at h
+      cases hs : st1.stepAll S repl.reverse with
+      | error e => rw [hs] at h; simp [liftP] at h
+      | ok s2 =>
+        rw [hs] at h
+        simp only [liftP, Except.ok.injEq] at h
+        subst h
+        rw [PSt.stepAll_fits S _ st1 s2 hs, hf1]
+
+theorem setBlockTypeVisitF_fits_of_plain (S : Schema) (ty : TypeId) (attrs : Attrs) (mf : Nat)
+    (hp : S.plainType ty = true) (st st' : PSt) (skip skip' : Nat) (v : NV)
+    (h : setBlockTypeVisitF S ty attrs mf (.ok (st, skip)) v = .ok (st', skip')) : st'.fits = st.fits := by
+  unfold setBlockTypeVisitF at h
+  simp only at h
+  split at h
+  · simp only [Except.ok.injEq, Prod.mk.injEq] at h; rw [← h.1]
+  · split at h
+    · simp only [Except.ok.injEq, Prod.mk.injEq] at h; rw [← h.1]
+    · split at h
+      · simp at h
+      · simp only [Except.ok.injEq, Prod.mk.injEq] at h; rw [← h.1]
+      · split at h
+        · simp at h
+        · rename_i st1 hc
+          split at h
+          · simp at h
+          · split at h
+            · simp at h
+            · rename_i st2 hs
+              simp only [Except.ok.injEq, Prod.mk.injEq] at h
+              rw [← h.1, PSt.step_fits S st1 st2 _ hs]
+              exact clearIncompatibleF_fits_of_validEnd S st st1 _ ty 0
+                (fun node _ => plainType_validEnd S ty hp node.kids) hc
+
+theorem sbtF_fold_fits_of_plain (S : Schema) (ty : TypeId) (attrs : Attrs) (mf : Nat)
+    (hp : S.plainType ty = true) : ∀ (vs : List NV) (st st' : PSt) (skip skip' : Nat),
+    vs.foldl (setBlockTypeVisitF S ty attrs mf) (.ok (st, skip)) = .ok (st', skip') → st'.fits = st.fits
+  | [], st, st', skip, skip', h => by
+    simp only [List.foldl_nil, Except.ok.injEq, Prod.mk.injEq] at h; rw [← h.1]
+  | v :: vs, st, st', skip, skip', h => by
+    simp only [List.foldl_cons] at h
+    cases hv : setBlockTypeVisitF S ty attrs mf (.ok (st, skip)) v with
+    | error e => rw [hv, sbtF_foldl_error] at h; simp at h
+    | ok r =>
+      obtain ⟨st1, sk1⟩ := r
+      rw [hv] at h
+      rw [sbtF_fold_fits_of_plain S ty attrs mf hp vs st1 st' sk1 skip' h,
+        setBlockTypeVisitF_fits_of_plain S ty attrs mf hp st st1 skip sk1 v hv]
+
+/-- **`set_block_type` to a plain type never consults the Fitter** -/
+theorem PSt.setBlockTypeF_fits_of_plain (S : Schema) (st st' : PSt) (f t : Nat) (ty : TypeId) (attrs : Attrs)
+    (hp : S.plainType ty = true) (h : st.setBlockTypeF S f t ty attrs = .ok st') : st'.fits = st.fits := by
+  unfold PSt.setBlockTypeF at h
+  simp only at h
+  split at h
+  · simp at h
+  · split at h
+    · simp at h
+    · rename_i st2 sk hfold
+      split at h
+      · simp at h
+      · simp only [Except.ok.injEq] at h
+        subst h
+        exact sbtF_fold_fits_of_plain S ty attrs _ hp _ st st2 0 sk hfold
+
 end PM
